@@ -7,6 +7,8 @@ import Vivid.Engine.Codec
 import Vivid.Engine.ActorSys
 import Vivid.Engine.SysFSM
 import Vivid.Engine.Future
+import Vivid.Engine.Framing
+import Vivid.Engine.SendLoop
 
 open Vivid.Engine
 
@@ -18,7 +20,9 @@ def engines : List (String × Engine) := [
   ("codec", CodecEngine.engine),
   ("actorsys", ActorSysEngine.engine),
   ("sysfsm", SysFSMEngine.engine),
-  ("future", FutureEngine.engine)
+  ("future", FutureEngine.engine),
+  ("framing", FramingEngine.engine),
+  ("sendloop", SendLoopEngine.engine)
 ]
 
 partial def loop (h : IO.FS.Stream) (out : IO.FS.Stream) (e : Engine) (s : e.σ) : IO Unit := do
